@@ -100,13 +100,22 @@ def shards(tier, seed):
     for (planet, orb), idxs in sorted(groups.items()):
         out.append({"name": "%s-%s" % (planet, "orbit" if orb else "syn"),
                     "finders": idxs, "full": tier == "thorough"})
-    # every perihelion and aphelion of the Earth, -1999..3998, both tiers
+    # every perihelion and aphelion of the Earth, -1999..3998, both tiers;
+    # of Mercury, Venus and Mars too in the thorough one
     for i, f in enumerate(FINDERS):
-        if f[0] == "Earth" and f[3] in ("peri", "aph"):
-            for y0 in (-1999, 1):
-                out.append({"name": "Earth-all-%s-%d" % (f[3], y0),
-                            "allyears": [i, y0, y0 + 2000 if y0 < 0
-                                         else 3999], "full": False})
+        if f[3] not in ("peri", "aph"):
+            continue
+        if f[0] == "Earth":
+            cuts = (-1999, 1, 3999)
+        elif tier == "thorough" and f[0] in ("Venus", "Mars"):
+            cuts = (-1999, 1, 3999)
+        elif tier == "thorough" and f[0] == "Mercury":
+            cuts = (-1999, -500, 1000, 2500, 3999)
+        else:
+            continue
+        for y0, y1 in zip(cuts, cuts[1:]):
+            out.append({"name": "%s-all-%s-%d" % (f[0], f[3], y0),
+                        "allyears": [i, y0, y1], "full": False})
     return out
 
 
